@@ -50,6 +50,24 @@ def gen_site(rng, rich, opts):
         site["old_src"] = "" if old is None else noisy(old)
         if site["placement"] == "loop":
             site["placement"] = "assert"
+    elif kind in ("le", "ge") and rng.random() < opts.get("p_tuple_bounds", 0.2):
+        # bounds that are tuples (compared lexicographically), including one-element tuples
+        xs = [tuple(rng.randint(0, 9) for _ in range(rng.choice([1, 1, 2]))) for _ in range(rng.randint(1, 4))]
+        ext = max(xs) if kind == "le" else min(xs)
+        tup = lambda t: ("tuple", [("int", v) for v in t])  # noqa
+        bigger, smaller = ext + (0,), (ext[:-1] if len(ext) > 1 else (ext[0] - 1,))
+        r = rng.random()
+        if missing:
+            old = None
+        elif r < 0.3:
+            old = tup(ext)
+        elif r < 0.65:
+            old = tup(bigger if kind == "le" else smaller)       # slack: trim
+        else:
+            old = tup(smaller if kind == "le" else bigger)       # wrong: fix
+        site.update(old=old, obs=xs)
+        site["old_src"] = "" if old is None else noisy(old)
+        site["placement"] = "loop" if len(xs) > 1 else "assert"
     elif kind in ("le", "ge"):
         xs = [rng.randint(-5, 30) for _ in range(rng.randint(1, 4))]
         ext = max(xs) if kind == "le" else min(xs)
